@@ -326,3 +326,23 @@ Proof.
     + apply ideal_stop in Ec. subst. cbn in Z. discriminate.
   - exfalso. assert (e = 0) by (inversion H1; reflexivity). subst e. apply ideal_stop in Ea. cbn in Ea. discriminate.
 Qed.
+
+(* ---- the shape Model/Chm.v's extract has: skip to the member's offset (output discarded), then the member's bytes ---- *)
+From MSP Require Proofs.IdealOut.
+Lemma lzx_call_push L s i o n : lzx_call L s (IdealOut.push i o) n = let '(st, s', i') := lzx_call L s i n in (st, s', IdealOut.push i' o).
+Proof.
+  unfold lzx_call. rewrite IdealOut.ideal_push. destruct (ideal EofPad2 L (decompress n s) i) as [[[e|[[] x]]|e] i']; reflexivity.
+Qed.
+Definition clr (i : ist) : ist := {| irest := irest i; iout := [] |}.
+Theorem lzx_skip_then_extract L lz inp skip ln lz1 inp1 e2 lz2 inp2 ec lzc inpc : Core L lz -> err lz = 0 -> Dd lz + (skip + ln) < 70368744177664 ->
+  lzx_call L lz inp skip = (0, lz1, inp1) ->
+  lzx_call L lz1 (clr inp1) ln = (e2, lz2, inp2) -> e2 <> 99 ->
+  lzx_call L lz inp (skip + ln) = (ec, lzc, inpc) -> ec <> 99 ->
+  ec = e2 /\ irest inpc = irest inp2 /\ iout inpc = iout inp2 ++ iout inp1 /\ (ec = 0 -> lzc = lz2).
+Proof.
+  intros HC He Hb H1 H2 N2 Hc Nc.
+  assert (Ei : inp1 = IdealOut.push (clr inp1) (iout inp1)) by (destruct inp1; reflexivity).
+  assert (H2' : lzx_call L lz1 inp1 ln = (e2, lz2, IdealOut.push inp2 (iout inp1))) by (rewrite Ei at 1; rewrite lzx_call_push, H2; reflexivity).
+  destruct (lzx_call_resumable L lz inp skip ln lz1 inp1 e2 lz2 _ ec lzc inpc HC He Hb H1 H2' N2 Hc Nc) as (A & B & C).
+  subst inpc. repeat split; try assumption; reflexivity.
+Qed.
